@@ -486,7 +486,9 @@ func RunTinyFillDrain(c QCfg, variant, cycles int) *core.Trace {
 	for cy := 0; cy < cycles; cy++ {
 		var ferr error
 		for k := 0; k < 4000 && ferr == nil; k++ {
-			size := 300 + (37+variant*11)*(id%9) + variant*53
+			// (a few hundred bytes per event: with a write buffer of at most one page never more
+			// than about two pages are buffered when the file runs full)
+			size := 300 + 37*(id%9) + 7*(variant%6)
 			if ferr = e.Write(size); ferr != nil {
 				break
 			}
@@ -636,7 +638,7 @@ func CheckC12(r *core.Run) {
 	}
 	wg.Wait()
 	for v := 0; v < r.Pick(6, 24); v++ {
-		c := QCfg{Name: fmt.Sprintf("c12-tiny-%d", v), Seed: r.Seed*31 + int64(v), PageSize: 4096, MaxPages: 16, WriteBuffer: []uint{4096, 0, 4096, 2048}[v%4]}
+		c := QCfg{Name: fmt.Sprintf("c12-tiny-%d", v), Seed: r.Seed*31 + int64(v), PageSize: 4096, MaxPages: 16, WriteBuffer: []uint{4096, 2048, 4096, 1024}[v%4]}
 		traces = append(traces, RunTinyFillDrain(c, v, 8))
 	}
 	for _, t := range traces {
